@@ -164,3 +164,62 @@ func TestProbeC16ClaimBroadcastNotPersisted(t *testing.T) {
 	rec := recOf(a2, sid)
 	probeReport(t, id, rec != nil && !isTerminal(rec.Current), fmt.Sprintf("(claim tx accepted by the chain, swap still in %s after three restarts)", rec.Current))
 }
+
+// swap-in from alice to bob up to the point where alice handles the agreement (and broadcasts).
+func probeSwapInOpening(t *testing.T, arrange func(w *sim.World, a *sim.Node)) (*sim.World, *sim.Node, bool) {
+	w, a, b := twoNodes(t)
+	a.ChangeBefore = 1
+	w.Step(a, func() { a.Svc.SwapIn(b.Id, "btc", "100x1x0", a.Id, 1_000_000, 10_000) })
+	for _, m := range w.PendingMsgs() { // request -> bob
+		w.DeliverMsg(m)
+	}
+	arrange(w, a)
+	crashed := false
+	for _, m := range w.PendingMsgs() { // agreement -> alice: broadcasts the opening tx
+		c, _ := w.DeliverMsg(m)
+		crashed = crashed || c
+	}
+	return w, a, crashed
+}
+
+func openingRecorded(a *sim.Node) (have bool, recorded bool) {
+	if len(a.Openings) == 0 {
+		return false, false
+	}
+	o := a.Openings[0]
+	rec := recForOpening(a, o)
+	return true, rec != nil && rec.Data.OpeningTxBroadcasted != nil && rec.Data.OpeningTxBroadcasted.TxId == o.TxID
+}
+
+func TestProbeC07CrashAfterOpeningBroadcast(t *testing.T) {
+	const id = "C07-crash-after-opening-broadcast"
+	// find the trace index of the broadcast in a crash-free run
+	w, _, _ := probeSwapInOpening(t, func(*sim.World, *sim.Node) {})
+	idx := -1
+	for _, e := range w.TraceCopy() {
+		if e.Call == "wallet.CreateOpeningTransaction" && e.Phase == "exit" {
+			idx = e.Idx
+		}
+	}
+	w.Close()
+	w2, a2, crashed := probeSwapInOpening(t, func(w *sim.World, a *sim.Node) { w.CrashAt = idx })
+	defer w2.Close()
+	if idx < 0 || !crashed {
+		probeReport(t, id, false, "(crash point not reached)")
+		return
+	}
+	a2.Boot()
+	a2.Recover()
+	have, recorded := openingRecorded(a2)
+	probeReport(t, id, have && !recorded, "(opening tx on chain, record after restart does not name it)")
+}
+
+func TestProbeC07WalletErrorAfterBroadcast(t *testing.T) {
+	const id = "C07-wallet-error-after-broadcast"
+	w, a, _ := probeSwapInOpening(t, func(w *sim.World, a *sim.Node) {
+		a.Faults["wallet.CreateOpeningTransaction"] = []sim.FaultKind{sim.FaultAfter}
+	})
+	defer w.Close()
+	have, recorded := openingRecorded(a)
+	probeReport(t, id, have && !recorded, "(wallet back-end failed after broadcasting, swap has no record of the tx)")
+}
